@@ -1031,6 +1031,9 @@ class Parsent(object):
         while not self.started:
             if self.msg:
                 self.started = True
+                # closure seen while waiting for this message to start was of
+                # an earlier connection not of the one that delivers it
+                self.closed = False
                 break
             (yield None)
 
